@@ -103,8 +103,17 @@ func (p *Printer) printAccrual(a directives.Accrual) error {
 }
 
 func (p *Printer) printPosting(t directives.Booking) error {
-	_, err := fmt.Fprintf(p, "%-*s %-*s %10s %s", p.padding, t.Credit.Extract(), p.padding, t.Debit.Extract(), t.Quantity.Extract(), t.Commodity.Extract())
+	_, err := fmt.Fprintf(p, "%s %s %10s %s", pad(t.Credit.Extract(), p.padding), pad(t.Debit.Extract(), p.padding), t.Quantity.Extract(), t.Commodity.Extract())
 	return err
+}
+
+// pad pads s with blanks on the right to the given width in characters
+// (the width argument of fmt's %-*s is limited to 10^6).
+func pad(s string, width int) string {
+	if n := utf8.RuneCountInString(s); n < width {
+		return s + strings.Repeat(" ", width-n)
+	}
+	return s
 }
 
 func (p *Printer) printOpen(o directives.Open) error {
